@@ -67,7 +67,7 @@ Proof.
     + (* not a bool *)
       split.
       * rewrite (plan_step_nonbool m r Hb). cbn [plan']. rewrite Hb, <- IHA.
-        cbn [flush app List.length]. rewrite bsl_0, N.add_0_l. reflexivity.
+        reflexivity.
       * intros p pend c. subst c. cbn [map consecutive_true]. rewrite Hb.
         cbn [firstn map]. rewrite app_nil_r, Nat.add_0_r.
         rewrite (plan_step_nonbool m r Hb). cbn [plan']. rewrite Hb, <- IHA.
@@ -171,82 +171,114 @@ Qed.
 Lemma uint_set_expr_16 : forall x, uint_set_expr 16 x = if x <? 65536 then Some x else None.
 Proof. reflexivity. Qed.
 
+Lemma run_static_step : forall hls pendb t v r hs st bs,
+    py_is_dynamic t = false -> elem_encode t v = Some bs ->
+    run_heads None hls (flush (map sb pendb) ++ dyn_or_static (t, v) r :: hs) st =
+    option_map (fun x => (flushparts pendb ++ bs :: fst x, snd x)) (run_heads None hls hs st).
+Proof.
+  intros hls pendb t v r hs st bs Hd He.
+  rewrite run_flush. unfold dyn_or_static, mem_is_dyn. cbn [fst snd]. rewrite Hd.
+  cbn [run_heads run_head]. rewrite He. cbn [option_map obind fst snd].
+  destruct (run_heads None hls hs st) as [[ps st']|]; reflexivity.
+Qed.
+
+Lemma run_dyn_step : forall hls pendb t bs r hs st off,
+    py_is_dynamic t = true ->
+    (ts_first st = true -> ts_holder st = []) ->
+    (if ts_first st then hls else ts_acc st) = off -> off < 65536 ->
+    run_heads None hls (flush (map sb pendb) ++ dyn_or_static (t, SB bs) r :: hs) st =
+    if existsb mem_is_dyn r then
+      if off + blen bs <? 65536 then
+        option_map (fun x => (flushparts pendb ++ be_encode 2 off :: fst x, snd x))
+                   (run_heads None hls hs (mkTS false (ts_holder st ++ bs) (off + blen bs)))
+      else None
+    else
+      option_map (fun x => (flushparts pendb ++ be_encode 2 off :: fst x, snd x))
+                 (run_heads None hls hs (mkTS false (ts_holder st ++ bs) (ts_acc st))).
+Proof.
+  intros hls pendb t bs r hs st off Hd Hh Hoffeq Hofflt.
+  rewrite run_flush. unfold dyn_or_static, mem_is_dyn at 1. cbn [fst snd]. rewrite Hd.
+  cbn [run_heads run_head sv_bytes obind].
+  assert (Hholder : (if ts_first st then Some bs else x_concat None (ts_holder st) bs) = Some (ts_holder st ++ bs)).
+  { destruct (ts_first st) eqn:Hf; [rewrite (Hh eq_refl); reflexivity | reflexivity]. }
+  rewrite Hholder. cbn [obind]. rewrite Hoffeq, uint_encode_16.
+  destruct (existsb mem_is_dyn r).
+  - rewrite uint_set_expr_16. destruct (off + blen bs <? 65536); [|reflexivity].
+    cbn [obind option_map fst snd].
+    destruct (run_heads None hls hs _) as [[ps st']|]; reflexivity.
+  - cbn [obind option_map fst snd].
+    destruct (run_heads None hls hs _) as [[ps st']|]; reflexivity.
+Qed.
+
 Lemma run_heads_correct : forall vals es, Forall2 rep vals es -> forall pendb st off hls,
     (ts_first st = true -> ts_holder st = []) ->
     (existsb mem_is_dyn vals = true -> (if ts_first st then hls else ts_acc st) = off /\ off < 65536) ->
     match asm es pendb off with
-    | Some (h, tl) =>
+    | Some ht =>
         exists parts st',
           run_heads None hls (fst (plan' vals (map sb pendb))) st = Some (parts, st')
-          /\ List.concat parts = h
-          /\ ts_holder st' = ts_holder st ++ tl
+          /\ List.concat parts = fst ht
+          /\ ts_holder st' = ts_holder st ++ snd ht
           /\ ts_first st' = ts_first st && negb (existsb mem_is_dyn vals)
     | None => run_heads None hls (fst (plan' vals (map sb pendb))) st = None
     end.
 Proof.
   intros vals es H. induction H as [|m e r er Hm Hr IH]; intros pendb st off hls Hh Hoff.
   - (* end of the members *)
-    cbn [asm plan' fst]. exists (flushparts pendb), st.
+    cbn [asm plan' fst snd]. exists (flushparts pendb), st.
     rewrite <- (app_nil_r (flush (map sb pendb))), run_flush. cbn [run_heads option_map fst snd].
     rewrite !app_nil_r, concat_flushparts, andb_true_r. repeat split; reflexivity.
   - destruct Hm as [b | t v bs Hb Hd He Hl | t bs Hd].
     + (* bool: joins the pending run *)
       cbn [asm plan']. unfold mem_is_bool. cbn [fst is_bool snd].
       change (sb b :: map sb pendb) with (map sb (b :: pendb)).
-      assert (Hnd : existsb mem_is_dyn ((TBool, sb b) :: r) = existsb mem_is_dyn r) by reflexivity.
-      rewrite Hnd in *. apply IH; assumption.
+      change (existsb mem_is_dyn ((TBool, sb b) :: r)) with (existsb mem_is_dyn r) in *.
+      apply IH; assumption.
     + (* static member *)
+      assert (Hnd : forall x : member, x = (t, v) -> existsb mem_is_dyn (x :: r) = existsb mem_is_dyn r).
+      { intros x ->. cbn [existsb]. unfold mem_is_dyn at 1. cbn [fst]. rewrite Hd. reflexivity. }
+      assert (Hoff' : existsb mem_is_dyn r = true -> (if ts_first st then hls else ts_acc st) = off /\ off < 65536).
+      { intro Hx. apply Hoff. rewrite (Hnd _ eq_refl). exact Hx. }
+      specialize (IH [] st off hls Hh Hoff'). cbn [map] in IH.
       cbn [asm plan']. unfold mem_is_bool. cbn [fst]. rewrite Hb. cbn [fst snd].
-      assert (Hnd : existsb mem_is_dyn ((t, v) :: r) = existsb mem_is_dyn r).
-      { cbn [existsb]. unfold mem_is_dyn at 1. cbn [fst]. rewrite Hd. reflexivity. }
-      rewrite Hnd in *.
-      specialize (IH [] st off hls Hh Hoff). cbn [map] in IH.
-      rewrite run_flush. unfold dyn_or_static, mem_is_dyn. cbn [fst snd]. rewrite Hd.
-      cbn [run_heads run_head]. rewrite He. cbn [option_map obind fst snd].
-      destruct (asm er [] off) as [[h tl]|].
-      * destruct IH as [parts [st' [Hrun [Hc [Hho Hf]]]]]. cbn [obind].
-        exists (flushparts pendb ++ bs :: parts), st'. rewrite Hrun. cbn [obind option_map fst snd].
+      destruct (asm er [] off) as [ht|]; cbn [obind].
+      * destruct IH as [parts [st' [Hrun [Hc [Hho Hf]]]]].
+        exists (flushparts pendb ++ bs :: parts), st'.
+        rewrite (run_static_step hls pendb t v r _ st bs Hd He), Hrun, (Hnd _ eq_refl). cbn [option_map fst snd].
         repeat split; try assumption.
         rewrite concat_app, concat_flushparts. cbn [List.concat]. rewrite Hc. reflexivity.
-      * rewrite IH. reflexivity.
+      * rewrite (run_static_step hls pendb t v r _ st bs Hd He), IH. reflexivity.
     + (* dynamic member *)
+      assert (Hnd : forall x : member, x = (t, SB bs) -> existsb mem_is_dyn (x :: r) = true).
+      { intros x ->. cbn [existsb]. unfold mem_is_dyn at 1. cbn [fst]. rewrite Hd. reflexivity. }
+      destruct (Hoff (Hnd _ eq_refl)) as [Hoffeq Hofflt]. clear Hoff.
       cbn [asm plan']. unfold mem_is_bool. cbn [fst]. rewrite (dyn_not_bool t Hd). cbn [fst snd].
-      assert (Hnd : existsb mem_is_dyn ((t, SB bs) :: r) = true).
-      { cbn [existsb]. unfold mem_is_dyn at 1. cbn [fst]. rewrite Hd. reflexivity. }
-      rewrite Hnd in *. destruct (Hoff eq_refl) as [Hoffeq Hofflt]. clear Hoff.
-      rewrite run_flush. unfold dyn_or_static, mem_is_dyn at 1. cbn [fst snd]. rewrite Hd.
-      cbn [run_heads run_head sv_bytes obind].
-      assert (Hholder : (if ts_first st then Some bs else x_concat None (ts_holder st) bs) = Some (ts_holder st ++ bs)).
-      { destruct (ts_first st) eqn:Hf; [rewrite (Hh eq_refl); reflexivity | reflexivity]. }
-      rewrite Hholder. cbn [obind]. rewrite Hoffeq, uint_encode_16.
-      unfold u16. apply N.ltb_lt in Hofflt. rewrite Hofflt. cbn [obind].
-      rewrite andb_false_r.
+      rewrite (run_dyn_step hls pendb t bs r _ st off Hd Hh Hoffeq Hofflt).
+      unfold u16. pose proof Hofflt as Hofflt'. apply N.ltb_lt in Hofflt'. rewrite Hofflt'. cbn [obind].
+      rewrite (Hnd _ eq_refl). cbn [negb]. rewrite andb_false_r.
       destruct (existsb mem_is_dyn r) eqn:Hnext.
       * (* another dynamic member follows: the accumulator is range-checked *)
-        rewrite uint_set_expr_16. destruct (N.ltb_spec (off + blen bs) 65536) as [Hlt|Hge].
-        -- cbn [obind option_map fst snd].
-           specialize (IH [] (mkTS false (ts_holder st ++ bs) (off + blen bs)) (off + blen bs) hls).
+        destruct (N.ltb_spec (off + blen bs) 65536) as [Hlt|Hge].
+        -- specialize (IH [] (mkTS false (ts_holder st ++ bs) (off + blen bs)) (off + blen bs) hls).
            cbn [map ts_first ts_holder ts_acc] in IH.
            specialize (IH ltac:(discriminate) ltac:(intros _; split; [reflexivity | exact Hlt])).
-           destruct (asm er [] (off + blen bs)) as [[h tl]|].
-           ++ destruct IH as [parts [st' [Hrun [Hc [Hho Hf]]]]]. cbn [obind].
-              exists (flushparts pendb ++ be_encode 2 off :: parts), st'. rewrite Hrun. cbn [obind option_map fst snd].
+           destruct (asm er [] (off + blen bs)) as [ht|]; cbn [obind].
+           ++ destruct IH as [parts [st' [Hrun [Hc [Hho Hf]]]]].
+              exists (flushparts pendb ++ be_encode 2 off :: parts), st'. rewrite Hrun. cbn [option_map fst snd].
               repeat split.
               ** rewrite concat_app, concat_flushparts. cbn [List.concat]. rewrite Hc. reflexivity.
               ** rewrite Hho, <- app_assoc. reflexivity.
               ** exact Hf.
            ++ rewrite IH. reflexivity.
-        -- cbn [obind option_map].
-           rewrite (asm_overflow er [] (off + blen bs) Hge) by (rewrite <- (rep_dyn_flags _ _ Hr); exact Hnext).
+        -- rewrite (asm_overflow er [] (off + blen bs) Hge) by (rewrite <- (rep_dyn_flags _ _ Hr); exact Hnext).
            reflexivity.
       * (* the last dynamic member: the accumulator is not touched *)
-        cbn [obind option_map fst snd].
         specialize (IH [] (mkTS false (ts_holder st ++ bs) (ts_acc st)) (off + blen bs) hls).
         cbn [map ts_first ts_holder ts_acc] in IH.
         specialize (IH ltac:(discriminate) ltac:(discriminate)).
-        destruct (asm er [] (off + blen bs)) as [[h tl]|].
-        -- destruct IH as [parts [st' [Hrun [Hc [Hho Hf]]]]]. cbn [obind].
-           exists (flushparts pendb ++ be_encode 2 off :: parts), st'. rewrite Hrun. cbn [obind option_map fst snd].
+        destruct (asm er [] (off + blen bs)) as [ht|]; cbn [obind].
+        -- destruct IH as [parts [st' [Hrun [Hc [Hho Hf]]]]].
+           exists (flushparts pendb ++ be_encode 2 off :: parts), st'. rewrite Hrun. cbn [option_map fst snd].
            repeat split.
            ++ rewrite concat_app, concat_flushparts. cbn [List.concat]. rewrite Hc. reflexivity.
            ++ rewrite Hho, <- app_assoc. reflexivity.
@@ -274,11 +306,12 @@ Proof.
     { intro Hd. rewrite Hd in Hok. apply N.ltb_lt in Hok. split; [reflexivity | exact Hok]. }
     specialize (Hrun Hpre).
     destruct (asm es [] (head_len es 0)) as [[h tl]|] eqn:Hasm.
-    + destruct Hrun as [parts [st' [Hr [Hc [Hho Hf]]]]]. rewrite Hr. cbn [obind fst snd].
+    + destruct Hrun as [parts [st' [Hr [Hc [Hho Hf]]]]]. cbn [fst snd] in Hc, Hho. rewrite Hr. cbn [obind fst snd].
       rewrite concat_all_none. rewrite Hf. cbn [andb].
-      destruct (existsb mem_is_dyn vals) eqn:Hd; cbn [negb].
+      destruct (existsb mem_is_dyn vals) eqn:Hd in |- *; cbn [negb].
       * rewrite concat_app, Hc, Hho. cbn [List.concat app]. rewrite app_nil_r. reflexivity.
-      * rewrite Hc. rewrite Hflags in Hd. rewrite (asm_no_dyn es [] _ h tl Hd Hasm), app_nil_r. reflexivity.
+      * rewrite Hc. rewrite Hd in Hflags. symmetry in Hflags.
+        rewrite (asm_no_dyn es [] _ h tl Hflags Hasm), app_nil_r. reflexivity.
     + rewrite Hrun. reflexivity.
   - destruct (existsb mem_is_dyn vals) eqn:Hd; [|discriminate].
     apply N.ltb_ge in Hok. rewrite asm_overflow; [reflexivity | exact Hok | rewrite <- Hflags; reflexivity].
